@@ -134,6 +134,7 @@ func (t *Torrent) announce(ipv6 bool) {
 		prot = "IPv6"
 	}
 	t.Log.Printf("Starting %v announce for %v\n", prot, t.Hash)
+	verifAnnounce(t.Hash, ipv6, port)
 	dht.Announce(t.Hash, ipv6, port)
 	t.announceTime = time.Now()
 }
